@@ -4,6 +4,7 @@ from __future__ import annotations
 
 import logging
 import random
+import re
 import time
 from enum import Enum
 from typing import TYPE_CHECKING
@@ -58,25 +59,37 @@ def types_info(types: Iterable[etree.QName] | None) -> list[str] | None:
     return [str(t) for t in types] if types else types
 
 
+_RFC3986_COMPONENTS = re.compile(r'^(?:([^:/?#]+):)?(?://([^/?#]*))?([^?#]*)')  # RFC 3986 appendix B
+
+
+def _split_scope(uri: str) -> tuple[str, str, str]:
+    """Return scheme, authority and path of a scope uri."""
+    try:
+        parts = urlsplit(uri)
+    except ValueError:
+        # urlsplit validates a bracketed host and raises for what it does not know, e.g. the (valid) upper case
+        # IPvFuture literal in 'http://[V1.FE]/a' or a foreign device's 'http://[1.2.3.4]/a'. Matching only needs the components.
+        scheme, authority, path = _RFC3986_COMPONENTS.match(uri).groups()
+        return scheme or '', authority or '', path
+    return parts.scheme, parts.netloc, parts.path
+
+
 def match_scope(my_scope: str, other_scope: str, match_by: MatchBy | str | None) -> bool:
     """match_scope checks if my_scope matches other_scope by applying the algorithm defined by match_by.
 
     match_scope correctly handles "%2F" (== '/') encoded values.
     """
     if match_by in (MatchBy.ldap, MatchBy.uri, MatchBy.uuid, '', None):
-        my_scope = urlsplit(my_scope)
-        other_scope = urlsplit(other_scope)
-        if (
-            my_scope.scheme.lower() != other_scope.scheme.lower()
-            or my_scope.netloc.lower() != other_scope.netloc.lower()
-        ):
+        my_scheme, my_netloc, my_path = _split_scope(my_scope)
+        other_scheme, other_netloc, other_path = _split_scope(other_scope)
+        if my_scheme.lower() != other_scheme.lower() or my_netloc.lower() != other_netloc.lower():
             return False
-        if my_scope.path == other_scope.path:
+        if my_path == other_path:
             return True
-        if not my_scope.path:
+        if not my_path:
             return True  # an empty path has no segments, it is a prefix of every path
-        src_path_elements = my_scope.path.split('/')
-        target_path_elements = other_scope.path.split('/')
+        src_path_elements = my_path.split('/')
+        target_path_elements = other_path.split('/')
         # compare octets: unquote() would turn every invalid utf-8 sequence into the same replacement character
         src_path_elements = [unquote_to_bytes(elem) for elem in src_path_elements]
         target_path_elements = [unquote_to_bytes(elem) for elem in target_path_elements]
